@@ -196,6 +196,11 @@ class _MetaAbstractArray(type):
         if hasattr(obj.dtype, "type") and hasattr(obj.dtype.type, "__name__"):
             # JAX, numpy
             dtype = obj.dtype.type.__name__
+            # Integer scalar types that are platform-dependent C aliases (e.g.
+            # `np.longlong`) are named after the C type; `dtype.name` always gives the
+            # sized name ("int64") that the dtype categories are written in terms of.
+            if getattr(obj.dtype, "kind", None) in ("i", "u"):
+                dtype = getattr(obj.dtype, "name", dtype)
             # numpy structured array is strictly a subtype of np.void
             if _dtype_is_numpy_struct_array(obj.dtype):
                 dtype = str(obj.dtype)
